@@ -201,7 +201,8 @@ class OptRun:
     (shampoo|soap_eigh|soap_qr), inv_root_override, ignored_dims, exponent_multiplier, pdtype, fdtype, fixed {hp: value},
     group_overrides [{...}], tolerated."""
 
-    def __init__(self, cfg, tag="", init_values=None, hp=None):
+    def __init__(self, cfg, tag="", init_values=None, hp=None, param_wrap=None):
+        self.param_wrap = param_wrap
         self.cfg = cfg
         self.tag = tag
         self.init_values = init_values
@@ -244,6 +245,8 @@ class OptRun:
             w0 = arr_var(f"{self.tag}w{i}", tuple(shape)) if self.init_values is None else np.array(self.init_values[i], dtype=object).reshape(tuple(shape))
             self.W0.append(w0)
             p = torch.nn.Parameter(to_tensor(w0, pdt))
+            if self.param_wrap is not None:
+                p = self.param_wrap(p, i)
             self.params.append(p)
         groups = cfg.get("groups") or [list(range(len(self.params)))]
         self.groups = groups
